@@ -12,7 +12,7 @@ from harness.core import cfg_text, Machinery
 from harness.drivers import keys as K
 
 KNOWN_DEFECTS = ["ed_no_verify_key", "ed_sig_length", "ecdsa_negative", "alg_not_text"]
-MUTATIONS = ["mut_skip_alg_check", "mut_ignore_data", "mut_ignore_hash", "mut_strip_zeros"]
+MUTATIONS = ["mut_skip_alg_check", "mut_ignore_data", "mut_ignore_hash", "mut_strip_zeros", "mut_concat_verify"]
 INVS = ["Total", "AcceptsGenuine", "RejectsForged", "InModel"]
 BASE_NAMES = ["ssh-rsa", "rsa-sha2-256", "rsa-sha2-512", "ecdsa-sha2-nistp256", "ecdsa-sha2-nistp384",
               "ecdsa-sha2-nistp521", "ssh-ed25519"]
@@ -94,6 +94,8 @@ class Runner:
             vroot = ou[ui % len(ou)][0 if vmat == "k1" else 1]
         verifier, vhow = pool.obtain(vroot, vprov, rnd.randrange(12))
         mi = rnd.randrange(len(self.msgs))
+        if tcls == "shift_to_sig":              # needs octets to move: a non-empty message
+            mi = rnd.choice([i for i, m in enumerate(self.msgs) if m])
         msg = self.msgs[mi]
         g = self.genuine(signer, show, stype, alg, mi)
         if tamper_bytes is not None:
@@ -109,11 +111,29 @@ class Runner:
                 if z is None:
                     return False
                 msg, g = z
-            r = K.render_tamper(g, tcls, targ, rnd)
+            shifted = None
+            if tcls == "shift_to_sig":          # coordinated: blob = S || M[:k], verified data = M[k:]
+                k = rnd.choice([1, 1, 2, len(msg), rnd.randint(1, len(msg))])
+                k = min(k, len(msg))
+                r = g.build(blob=g.blob + msg[:k]), "first %d octets of the message moved behind the signature" % k
+                shifted = msg[k:]
+            elif tcls == "shift_to_data":       # coordinated: blob = S[:-k], verified data = S[-k:] || M
+                k = rnd.choice([1, 1, 2, 8, rnd.randint(1, min(32, len(g.blob) - 1))])
+                r = g.build(blob=g.blob[:-k]), "last %d octets of the signature moved in front of the message" % k
+                shifted = g.blob[-k:] + msg
+            else:
+                r = K.render_tamper(g, tcls, targ, rnd)
             if r is None:
                 return False
             wire, how = r
-        presented = msg if data == "d1" else other_data(msg, rnd)
+        if data == "d1":
+            presented = msg
+        elif data == "d2":
+            presented = other_data(msg, rnd)
+        elif data in ("d1_rest", "tail_d1") and tamper_bytes is None and shifted is not None:
+            presented = shifted
+        else:
+            raise Machinery("data token %s with tamper %s" % (data, tcls))
         obs, detail = K.observe_verify(verifier, presented, wire)
         rec = dict(stype=stype, sprov=sprov, vtype=vtype, vmat=vmat, vprov=vprov, alg=alg, tcls=tcls, targ=targ,
                    data=data, obs=obs)
@@ -163,9 +183,9 @@ def describe_factory(runner):
             what = "an untouched %s signature made by %s is rejected by %s" % (r["alg"], info["signer"], info["verifier"])
         elif clause == "P_forgery_accepted":
             key = "P_forgery_accepted:%s:%s:key=%s:data=%s" % (K.family(r["vtype"]), r["tcls"], rel,
-                                                               "signed" if r["data"] == "d1" else "other")
+                                                               {"d1": "signed", "d2": "other"}.get(r["data"], r["data"]))
             what = "verify_ssh_sig answered True for key=%s data=%s tamper=%s (%s); signer %s, verifier %s" % (
-                rel, "signed" if r["data"] == "d1" else "other", tam, info["tamper"], info["signer"], info["verifier"])
+                rel, r["data"], tam, info["tamper"], info["signer"], info["verifier"])
         else:
             key = "%s:%s:%s:%s" % (clause, K.family(r["vtype"]), tam, r["obs"])
             what = "%s answered %s for tamper %s (%s) where the model of the code expects otherwise" % (
@@ -218,7 +238,7 @@ def run(c):
     c.mc("Signatures", cfg_text(constants=consts(KNOWN_DEFECTS), invariants=INVS),
          expect="Total", name="faithful to the pinned tree (all four defects)")
     sens = [(d, "Total") for d in KNOWN_DEFECTS] + [(m, "RejectsForged") for m in MUTATIONS]
-    if c.quick:                   # one toggle per quick run, rotating with the seed; thorough runs all eight
+    if c.quick:                   # one toggle per quick run, rotating with the seed; thorough runs all nine
         sens = [sens[(c.seed + 4) % len(sens)]]
     for d, inv in sens:
         c.mc("Signatures", cfg_text(constants=consts([d]), invariants=INVS), expect=inv, name="sensitivity " + d)
